@@ -263,3 +263,18 @@ prop("C16",
          {"name": "miri", "build": "miri-tb", "bin": "c16", "shards": {"quick": 8, "thorough": 16}, "timeout": {"quick": 1500, "thorough": 7200}},
          {"name": "asan", "build": "asan", "bin": "c16"},
      ])
+
+prop("C18",
+     technique="runtime monitoring: delayed-source oracle at ratio 1, superposition/scaling (linearity) oracle at hostile fractional positions after every push incl. priming, constant-input envelope, reset-vs-fresh bit equality; std and no_std builds",
+     level_text=("Every depth 1..=64 (quick) / 1..=96 plus 128, 256, 1000 (thorough): ratio-1 conversion reproduces the source delayed by exactly `depth` frames within "
+                 "1e-12 of the peak (priming included); I(aX+bY) == a I(X) + b I(Y) within a rounding bound at x in {0, 2^-53, 1/2, 1-2^-53, 1/4, 1/3, 1e-300, random} after "
+                 "every pushed frame, for f64 (magnitudes 1, 1e300, 1e-200), [f32;2] and [i16;2] frames and rotated rings; constant input within 1% on a 2 000 / 10 000 "
+                 "point grid for every depth >= 4; reset() followed by any history is bit-identical to a fresh zero-padded interpolator from dirty, rotated states. "
+                 "3 / 30 seeds per depth. Exploration: depth, position and history are unbounded."),
+     level_note="trusted: the linearity tolerance (2d+8)*16u*(|a||X|+|b||Y|) (sum of 2d rounded taps with bounded total weight), +2d LSB per trace for integer frames (each tap is truncated)",
+     rule=("cases are (depth, seed) x check kind; depths enumerated, histories random; non-trivial = all but the test-suite's single depth-5 ratio-1 example; distinct by hash of "
+           "(depth, seed); evaluations = interpolated frames checked"),
+     stages=[
+         {"name": "main", "build": "fast", "bin": "c18"},
+         {"name": "nostd", "build": "nostd", "bin": "c18"},
+     ])
